@@ -81,23 +81,28 @@ pub(crate) mod folo_verif_cpu_mask {
         let mut m2 = CpuMask::with_words(NonZero::new(2).unwrap());
         let a = nd::u32();
         let b = nd::u32();
-        nd::assume(a < 64 && b < 128);
+        let hi = nd::u64(); // arbitrary contents of the wider mask's second word (set directly: a second
+                            // insert into the same mask does not fit, see DESIGN.md C11)
+        nd::assume(a < 64 && b < 64);
         assert!(m1 == m2, "empty masks of different width are equal");
         m1.insert(a);
         assert!(m1 != m2 && m2 != m1, "non-empty vs empty");
         m2.insert(b);
-        assert!((m1 == m2) == (a == b), "equal iff same set, whatever the widths");
-        assert!((m2 == m1) == (a == b), "equality symmetric");
+        *m2.words.get_mut(1).unwrap() = hi as c_ulong;
+        let same_set = a == b && hi == 0;
+        assert!((m1 == m2) == same_set, "equal iff same set, whatever the widths");
+        assert!((m2 == m1) == same_set, "equality symmetric");
         assert!(m1.len_bytes() == 8 && m2.len_bytes() == 16, "insert inside the width never changes the width");
         // set semantics, observed at an arbitrary id q (also beyond the masks' widths)
         let q = nd::u32();
         if q < 256 {
             let bit = (1 as c_ulong) << (q % 64);
             assert!((m1.word((q / 64) as usize) & bit != 0) == (q == a), "m1: exactly the inserted id is a member");
-            assert!((m2.word((q / 64) as usize) & bit != 0) == (q == b), "m2: exactly the inserted id is a member");
+            assert!((m2.word((q / 64) as usize) & bit != 0) == (q == b || (q >= 64 && q < 128 && (hi >> (q - 64)) & 1 == 1)), "m2: exactly its ids are members");
         }
-        witness!(a == b, "same id in both");
-        witness!(b >= 64, "id only representable in the wider mask");
+        witness!(same_set, "same single id in both");
+        witness!(b == a && hi != 0, "masks differ only in the word beyond the narrower mask");
+        witness!(b != a && hi == 0, "masks differ only in the shared word");
     }
 
     harnesses! {
@@ -109,8 +114,8 @@ pub(crate) mod folo_verif_cpu_mask {
         // @bounds CpuMask::processor_ids on a one-word mask whose word is solver-chosen with <= 2 bits set: ids ascending, one per bit
         fn c11_mask_enumerate_one_word [unwind 66] { enumerate_one_word() }
 
-        // @verif id=C11 tier=quick timeout=900 mem=10 expect=pass covers=2
-        // @bounds CpuMask: a 1-word and a 2-word mask, one solver-chosen id inserted into each (inside the width): membership at an arbitrary id, equality iff same set, width unchanged
+        // @verif id=C11 tier=quick timeout=900 mem=12 expect=pass covers=3
+        // @bounds CpuMask: a 1-word mask with one solver-chosen id and a 2-word mask with one solver-chosen id plus an arbitrary second word: membership at an arbitrary id, equality iff same set, width unchanged
         #[cfg_attr(kani, kani::stub(SmallVec::resize, smallvec_resize_model))]
         fn c11_mask_eq_width_independent [unwind 4] { eq_width_independent() }
 
